@@ -496,7 +496,8 @@ const LETTERS_HOSTILE: &[&str] = &["B", "L", "P", "C", "B3", "B0", "Bx", "X", "b
 pub fn path_string(r: &mut Rng, x: i64, y: i64, h: u8, max_pts: usize) -> String {
     let letters = if h >= 2 { LETTERS_HOSTILE } else { LETTERS };
     let mut p = String::from(*r.pick(letters));
-    let n = 1 + r.below(max_pts.max(1));
+    // occasionally a lone type token: a slider whose only control point is its position
+    let n = if r.chance(1, 12) { 0 } else { 1 + r.below(max_pts.max(1)) };
     let mut last = (x, y);
     let collinear = r.chance(1, 8);
     let big = r.chance(1, 30);
